@@ -207,6 +207,11 @@ func cheapTink(r *hx.Rng, b *base, id uint32) []string {
 		tv("T", b.pk[:len(b.pk)-1], b.msg, good, "-pklen-1"),
 		tv("N", append(append([]byte{}, b.pk...), 0), b.msg, b.sig, "-pklen+1"),
 		tv("T", b.pk, b.msg, good[:len(good)-1], "-len-1"),
+		// wrong lengths through the Tink verifier, both variants (C16_wrong_length_rejected_by_tink_verify)
+		tv("T", b.pk, b.msg, append(append([]byte{}, good...), 0), "-len+1"),
+		tv("N", b.pk, b.msg, b.sig[:len(b.sig)-1], "-len-1"),
+		tv("N", b.pk, b.msg, append(append([]byte{}, b.sig...), byte(r.Intn(256))), "-len+1"),
+		tv("T", b.pk, b.msg, good[:5+p.n], "-only-prefix-and-R"),
 	}
 }
 
@@ -257,6 +262,9 @@ func gen(r *hx.Rng, n int, tier string) []string {
 	for _, p := range sets {
 		b := bases[p.name]
 		out = append(out, cheap(r, b)...)
+		// two free Tink-verifier rejections (prefix / length classes) per set
+		ct := cheapTink(r, b, uint32(r.U64()))
+		out = append(out, ct[r.Intn(len(ct))], ct[8+r.Intn(len(ct)-8)])
 		if spend(p.cVf) {
 			out = append(out, vfLine(b, b.pk, b.msg, b.ctx, b.sig, "+valid"))
 		}
@@ -270,10 +278,22 @@ func gen(r *hx.Rng, n int, tier string) []string {
 			}
 		}
 	}
-	// B. public keys from secret seeds: all f sets
-	for _, p := range fast {
-		if spend(p.cKg) {
-			out = append(out, kgLine(r, p, "+kg"))
+	// B. keys CREATED by Tink (keyset.Manager.AddNewKeyFromParameters) for every
+	// parameter set and both variants, seeds and key id on the tape: the direct
+	// check recomputes PK.root with the internal key generation of the NAMED set
+	// and (f sets; s sets in the thorough tier) signs and verifies with the
+	// generated key.  For the f sets one variant (thorough: both) is also derived
+	// by the model from the seeds ("full": public keys from secret seeds, byte
+	// for byte); the s sets cost 275k-420k model calls and are "full" only when
+	// the thorough budget allows.
+	for _, p := range sets {
+		fullV := hx.PickS(r, []string{"T", "N"})
+		for _, v := range []string{"T", "N"} {
+			mode := "proj"
+			if (p.fast && (v == fullV || tier == "thorough") || !p.fast && tier == "thorough" && v == fullV) && spend(p.cKg) {
+				mode = "full"
+			}
+			out = append(out, gkLine(r, p, v, mode, p.fast || tier == "thorough"))
 		}
 	}
 	// C. signing compared byte for byte (the corpus holds the SHA2-128f known answer)
